@@ -457,6 +457,144 @@ func derivedRLWE(c *engine.Chooser, tag string, p rlwe.Parameters) {
 			fail("QiOverflowMargin", "level %d: %v, floor(2^64/%d) = %v", lvl, got, max, want)
 		}
 	}
+	// PiOverflowMargin: floor(2^64 / max(P[:level+1])) at every level, -1 without P or below level 0
+	if got := p.PiOverflowMargin(-1); got != -1 {
+		fail("PiOverflowMargin", "level -1: %d, documented -1", got)
+	}
+	if len(pp) == 0 {
+		if got := p.PiOverflowMargin(0); got != -1 {
+			fail("PiOverflowMargin", "no P: %d, documented -1", got)
+		}
+	}
+	for lvl := 0; lvl < len(pp); lvl++ {
+		max := uint64(0)
+		for _, x := range pp[:lvl+1] {
+			if x > max {
+				max = x
+			}
+		}
+		want := new(big.Int).Div(new(big.Int).Lsh(big.NewInt(1), 64), new(big.Int).SetUint64(max))
+		got := big.NewInt(int64(p.PiOverflowMargin(lvl)))
+		if diff := new(big.Int).Abs(new(big.Int).Sub(got, want)); diff.Cmp(new(big.Int).Rsh(want, 50)) > 0 {
+			fail("PiOverflowMargin", "level %d: %v, floor(2^64/max(P[:%d])) = floor(2^64/%d) = %v (P=%v)", lvl, got, lvl+1, max, want, pp)
+		}
+	}
+	// MaxBit: the largest bit length over Q[:levelQ+1] and P[:levelP+1], at every level pair
+	for lvlQ := 0; lvlQ < len(q); lvlQ++ {
+		for lvlP := -1; lvlP < len(pp); lvlP++ {
+			want := 0
+			for _, x := range q[:lvlQ+1] {
+				if b := bitLen(x); b > want {
+					want = b
+				}
+			}
+			for _, x := range pp[:lvlP+1] {
+				if b := bitLen(x); b > want {
+					want = b
+				}
+			}
+			if got := p.MaxBit(lvlQ, lvlP); got != want {
+				fail("MaxBit", "MaxBit(%d,%d) = %d, largest bit length over Q[:%d]=%v and P[:%d]=%v is %d", lvlQ, lvlP, got, lvlQ+1, q[:lvlQ+1], lvlP+1, pp[:lvlP+1], want)
+			}
+		}
+	}
+	// LogQi / LogPi: round(log2) of each prime, computed on the integer (2^(b-1) <= x < 2^b: b-1 or b according to x^2 vs 2^(2b-1))
+	roundLog2 := func(x uint64) int {
+		b := bitLen(x)
+		sq := new(big.Int).Mul(new(big.Int).SetUint64(x), new(big.Int).SetUint64(x))
+		if sq.Cmp(new(big.Int).Lsh(big.NewInt(1), uint(2*b-1))) >= 0 {
+			return b
+		}
+		return b - 1
+	}
+	for i, v := range p.LogQi() {
+		if i >= len(q) || v != roundLog2(q[i]) {
+			fail("LogQi", "LogQi()=%v for Q=%v", p.LogQi(), q)
+			break
+		}
+	}
+	if len(p.LogQi()) != len(q) || len(p.LogPi()) != len(pp) {
+		fail("LogQi", "LogQi has %d entries for %d primes, LogPi %d for %d", len(p.LogQi()), len(q), len(p.LogPi()), len(pp))
+	}
+	for i, v := range p.LogPi() {
+		if i >= len(pp) || v != roundLog2(pp[i]) {
+			fail("LogPi", "LogPi()=%v for P=%v", p.LogPi(), pp)
+			break
+		}
+	}
+	// BaseTwoDecompositionVectorSize, exactly, at every (levelQ, levelP, base): ceil(bitlen(q_i)/w); 1 when w = 0 or levelP > 0
+	for lvlQ := 0; lvlQ < len(q); lvlQ++ {
+		for lvlP := -1; lvlP < len(pp); lvlP++ {
+			for _, w := range []int{0, 1, 2, 7, 15, 16, 29, 30, 31, 45, 60, 61} {
+				got := p.BaseTwoDecompositionVectorSize(lvlQ, lvlP, w)
+				for i := range got {
+					want := 1
+					if w != 0 && lvlP <= 0 {
+						want = (bitLen(q[i]) + w - 1) / w
+					}
+					if i < len(q) && got[i] != want {
+						fail("BaseTwoDecompositionVectorSize", "(%d,%d,%d)[%d] = %d for q=%d (%d bits), documented ceil(bits/base) = %d", lvlQ, lvlP, w, i, got[i], q[i], bitLen(q[i]), want)
+					}
+				}
+			}
+		}
+	}
+	// noise figures: the truncation bound and the standard deviation of Xe; fresh public-key encryption noise as the
+	// source states it (sqrt((h+1)/12) with an auxiliary modulus -- the rounding of the division by P dominates --,
+	// sigma*sqrt(h+1) without; twice the variance in the conjugate-invariant ring)
+	h := -1
+	switch xs := p.Xs().(type) {
+	case ring.Ternary:
+		if xs.H != 0 {
+			h = xs.H
+		} else {
+			h = int(math.Ceil(float64(p.N()) * xs.P))
+		}
+	case ring.DiscreteGaussian:
+		h = int(math.Ceil(float64(p.N()) * xs.Sigma * math.Sqrt(2/math.Pi)))
+	}
+	if h >= 0 && p.XsHammingWeight() != h {
+		fail("XsHammingWeight", "%d for Xs=%v, N=%d: expected %d", p.XsHammingWeight(), p.Xs(), p.N(), h)
+	}
+	var sigma, bound float64
+	switch xe := p.Xe().(type) {
+	case ring.DiscreteGaussian:
+		sigma, bound = xe.Sigma, xe.Bound
+	case ring.Ternary:
+		bound = 1
+		pr := xe.P
+		if xe.H != 0 {
+			pr = float64(xe.H) / float64(p.N())
+		}
+		sigma = math.Sqrt(pr)
+	}
+	if math.Abs(p.NoiseBound()-bound) > 1e-9*(1+bound) {
+		fail("NoiseBound", "NoiseBound()=%v for Xe=%v: bound %v", p.NoiseBound(), p.Xe(), bound)
+	}
+	if math.Abs(p.NoiseFreshSK()-sigma) > 1e-9*(1+sigma) {
+		what := "NoiseFreshSK"
+		if xe, ok := p.Xe().(ring.Ternary); ok && xe.P != 0 {
+			what = "NoiseFreshSK@ternary-P" // FINDINGS.md 17: sqrt(1-P) instead of sqrt(P)
+		}
+		fail(what, "NoiseFreshSK()=%v for Xe=%v: the standard deviation of that distribution is %v (ring.Ternary: -1, 0, 1 with probabilities P/2, 1-P, P/2)", p.NoiseFreshSK(), p.Xe(), sigma)
+	}
+	if xe, ok := p.Xe().(ring.Ternary); ok && xe.P != 0 && len(pp) == 0 {
+		h = -1 // NoiseFreshPK without P is a multiple of NoiseFreshSK: one defect (ternary-P), one signature
+	}
+	if h >= 0 {
+		v := float64(h + 1)
+		if len(pp) > 0 {
+			v /= 12
+		} else {
+			v *= sigma * sigma
+		}
+		if p.RingType() == ring.ConjugateInvariant {
+			v *= 2
+		}
+		if want := math.Sqrt(v); math.Abs(p.NoiseFreshPK()-want) > 1e-9*(1+want) {
+			fail("NoiseFreshPK", "%v for h=%d sigma=%v #P=%d %v: %v", p.NoiseFreshPK(), h, sigma, len(pp), p.RingType(), want)
+		}
+	}
 	// Galois elements: 5^k mod NthRoot, inverse, discrete log, conjugation
 	nth := uint64(p.NthRoot())
 	for _, k := range []int{0, 1, 2, 3, p.N()/2 - 1, p.N() / 2, p.N() - 1, p.N(), -1, -2, -p.N() / 2} {
@@ -535,8 +673,84 @@ func derivedCKKS(c *engine.Chooser, tag string, p ckks.Parameters) {
 	}
 }
 
+// mixedSizesScenario: the derived getters are functions of *prefixes* of the chains (max over Q[:l+1], P[:l+1], digit
+// counts per prime): chains whose primes all have one size, or are sorted, cannot tell a maximum from a last element.
+// Every order of three distinct sizes for Q x every order of three (and two, and no) sizes for P, explicit and generated
+// (LogP {61,40} as shipped hybrid sets have), through the three constructors.
+func mixedSizesScenario(s scheme, rt ring.Type, generated bool) engine.Scenario {
+	name := fmt.Sprintf("derived/mixed-sizes/%s/%s/explicit", s, rtName(rt))
+	if generated {
+		name = fmt.Sprintf("derived/mixed-sizes/%s/%s/generated", s, rtName(rt))
+	}
+	perms3 := [][]int{{0, 1, 2}, {0, 2, 1}, {1, 0, 2}, {1, 2, 0}, {2, 0, 1}, {2, 1, 0}}
+	qSizes := []int{55, 30, 45}
+	pShapes := [][]int{nil, {61}, {61, 40}, {40, 61}, {50, 61, 40}, {50, 40, 61}, {61, 50, 40}, {61, 40, 50}, {40, 61, 50}, {40, 50, 61}}
+	const logN = 5
+	return engine.Scenario{Name: name, Bound: -1, Fn: func(c *engine.Chooser) {
+		pq := perms3[c.Choose(len(perms3), "Q-order")]
+		ps := pShapes[c.Choose(len(pShapes), "P-sizes")]
+		uni.Seed(c, name, fmt.Sprint(pq, ps))
+		logQ := []int{qSizes[pq[0]], qSizes[pq[1]], qSizes[pq[2]]}
+		l := lit{sch: s}
+		l.rl.LogN, l.rl.RingType = logN, rt
+		if generated {
+			l.rl.LogQ, l.rl.LogP = logQ, ps
+		} else {
+			m := uint64(1) << (logN + 2)
+			for _, b := range logQ {
+				l.rl.Q = append(l.rl.Q, ref.PrimesNear(1<<uint(b), m, 1, false)[0])
+			}
+			for i, b := range ps {
+				// explicit P primes stay below 2^61 (CheckModuli's documented range): the 61-bit request becomes 60 bits
+				if b == 61 {
+					b = 60
+				}
+				l.rl.P = append(l.rl.P, ref.PrimesNear(1<<uint(b), m, 3, true)[i])
+			}
+		}
+		defaults(&l)
+		if s == sBGV {
+			l.t = 65537
+		}
+		tag := fmt.Sprintf("%s LogQ=%v LogP=%v", name, logQ, ps)
+		out, err := l.construct()
+		if err != nil {
+			c.Fail("C19/derived/mixed-sizes/legal-chain-refused", "%s: %v", tag, err)
+			return
+		}
+		var p rlwe.Parameters
+		switch v := out.(type) {
+		case rlwe.Parameters:
+			p = v
+		case ckks.Parameters:
+			p = v.Parameters
+		case bgv.Parameters:
+			p = v.Parameters
+		}
+		// the chain is in the requested order (sizes), otherwise "every order" is not what is being looked at
+		for i, b := range p.LogQi() {
+			if b != logQ[i] {
+				c.Fail("C19/derived/mixed-sizes/chain-order", "%s: Q has sizes %v", tag, p.LogQi())
+				return
+			}
+		}
+		c.Cover("derived", "mixed-sizes")
+		if len(ps) > 1 && ps[len(ps)-1] != 61 {
+			c.Cover("derived", "largest-P-not-last")
+		}
+		derivedRLWE(c, tag, p)
+		c.Outcome(name, fmt.Sprint(logQ, ps))
+	}}
+}
+
 func roundTripScenarios(tier string) []engine.Scenario {
 	var scs []engine.Scenario
+	for _, gen := range []bool{false, true} {
+		for _, rt := range []ring.Type{ring.Standard, ring.ConjugateInvariant} {
+			scs = append(scs, mixedSizesScenario(sRLWE, rt, gen), mixedSizesScenario(sCKKS, rt, gen))
+		}
+		scs = append(scs, mixedSizesScenario(sBGV, ring.Standard, gen))
+	}
 	for _, k := range rtCatalogue(tier) {
 		scs = append(scs, roundTripScenario(k))
 	}
